@@ -1,5 +1,5 @@
 \* C08/C15 thorough bound: TXIDs 1..5, levels {0,1,2,9}, <= 4 files, file timestamps 1..2 (request timestamps 1..3).
-\* The runner rewrites `Part = 0` for every shard 0..Parts-1 (16 TLC processes at a time).
+\* The runner rewrites `Part = 0` for every shard 0..Parts-1 (one TLC process each, several workers: Fanout).
 SPECIFICATION Spec
 CONSTANTS
   N = 5
@@ -7,6 +7,7 @@ CONSTANTS
   MaxFiles = 4
   MaxTs = 2
   Part = 0
-  Parts = 64
+  Parts = 4
+  Fanout = TRUE
 INVARIANTS Sound CompleteTx CompleteLatest GapReported FurthestLatest TsExcluded TsFurthest TsMonotone ErrKinds
 CHECK_DEADLOCK FALSE
